@@ -26,7 +26,13 @@ func c11World(tp *Tape, env *Env) (*Plan, *Violation) {
 		cfg.MaxNodes, cfg.MaxTotal = 8, 40
 	}
 	g := &gen{tp: tp, cfg: cfg}
-	prog := g.program()
+	var prog *Program
+	if tp.Chance(20, "hubworld") {
+		cfg.WJump, cfg.WJumpE, cfg.WStop = 1, 0, 0
+		prog = g.hubProgram()
+	} else {
+		prog = g.program()
+	}
 	g.ensureYieldingCycles(prog)
 	layout := genLayout(tp)
 	w := World{Readers: distribute(tp, prog, layout, 2)}
@@ -46,6 +52,7 @@ func c11World(tp *Tape, env *Env) (*Plan, *Violation) {
 	}
 	plan := &Plan{Harness: 1, Property: "C11", Program: prog, Layout: &layout, World: w, Ops: ops}
 	env.St.sample(map[string]any{"script": readerTexts(&w), "ops": describeDynOps(ops)})
+	journal(plan)
 	return plan, c11Exec(plan, env.St)
 }
 
